@@ -183,7 +183,6 @@ def _mul(m, u, v):
 def _mkse(repo, opaque, **kw):
     se = symx.SymEval(repo, opaque={W + o for o in opaque}, inline_depth=6, **kw)
     se.assume["text:a[ix, iy] != 0.0"] = True     # the zero-coefficient skip in Apply2DPolynomial only saves work
-    se.assume["call:any"] = True                  # ... and so does a skip of all-zero rows
     return se
 
 
@@ -580,7 +579,6 @@ def coeffs(chk, repo):
     u, v = symx.symbols("u", "v")
     se = symx.SymEval(repo, inline_depth=6)
     se.assume["text:a[ix, iy] != 0.0"] = True
-    se.assume["call:any"] = True
     fi = repo.func(W + "ExtractPVCoeffs")
     ap2d = repo.func(MOD + ".Apply2DPolynomial")
     chk.analysed_unit(ap2d.qualname)
@@ -658,6 +656,24 @@ def coeffs(chk, repo):
     A = M("a")
     poly = se.run(ap2d, {"a": A, "x": u, "y": v}, {})
     chk.ob("R10.4", "Apply2DPolynomial::sum-a_ij-x^i-y^j", symx.equal(poly, P(A, u, v))[0], ap2d.where(), "Apply2DPolynomial(a, x, y) = sum_ij a[i,j] x^i y^j (first index is the x power)")
+    # sparse coefficient sets: the result may depend on the coefficients only through the sum, whatever rows or columns are entirely
+    # zero (skips of zero rows / zero coefficients are optimisations).  All 2^4 patterns of zero rows and of zero columns.
+    bad = []
+    for axis in ("rows", "cols"):
+        for mask in range(16):
+            keep = [bool(mask >> k & 1) for k in range(N)]
+            B = tuple(tuple((A[i][j] if (keep[i] if axis == "rows" else keep[j]) else sp.Integer(0)) for j in range(N)) for i in range(N))
+            try:
+                got = se.run(ap2d, {"a": B, "x": u, "y": v}, {})
+                ok_ = symx.equal(got, P(B, u, v))[0]
+            except symx.Unsupported:
+                ok_ = None
+            if ok_ is False:
+                bad.append("%s kept=%s" % (axis, "".join("1" if k else "0" for k in keep)))
+            elif ok_ is None:
+                bad.append(None)
+    chk.ob("R10.4", "Apply2DPolynomial::sparse-coefficient-sets", (None if (None in bad and not [b for b in bad if b]) else not [b for b in bad if b]), ap2d.where(),
+           "for every pattern of all-zero rows or columns of the coefficient matrix the result is still sum_ij a[i,j] x^i y^j%s" % ("" if not [b for b in bad if b] else " -- wrong for: " + ", ".join([b for b in bad if b][:6])))
     # Distort: scamp replaces, sip adds
     fi = repo.func(W + "Distort")
     for model, inverse in itertools.product(("scamp", "sip"), (False, True)):
